@@ -398,5 +398,41 @@ pub fn run(ctx: &Ctx) -> Vec<Eng> {
             e.sample(|| format!("[{}]", show(&h)));
         }
     });
-    vec![e1, e2, e3]
+    let (ph, maxp) = if ctx.thorough { (64, 5) } else { (40, 4) };
+    let mut e4 = Eng::new(
+        "c04-periodic",
+        "periodic histories: every primitive word of length <= p over {P(1 s), P(0.5 s), P(2 s), N, E1} repeated to H events (sample values cycle through {0,1,-2,3}), and every history differing from one of these in exactly one position; full gain set; textbook reference + shift invariance + composition (many resets / errors in a regular pattern over a long run)",
+        &format!("H={} p<={} => {} histories", ph, maxp, periodic_count(5, maxp, ph)),
+    );
+    par_periodic(&mut e4, 5, maxp, ph, budget, |seq, e| {
+        let h: Vec<Ev> = seq
+            .iter()
+            .enumerate()
+            .map(|(i, &s)| match s {
+                0 => Ev::P(S, cyc[i % 4]),
+                1 => Ev::P(S / 2, cyc[i % 4]),
+                2 => Ev::P(2 * S, cyc[i % 4]),
+                3 => Ev::N(S),
+                _ => Ev::Er(S, 1),
+            })
+            .collect();
+        e.sample(|| format!("[{}]", show(&h)));
+        check_history(3, &h, e, &Opts { meta: false, compose: true })
+    });
+    par_long(&mut e4, 5, 2, &LONG_LENS, budget, |seq, e| {
+        let h: Vec<Ev> = seq
+            .iter()
+            .enumerate()
+            .map(|(i, &s)| match s {
+                0 => Ev::P(S, cyc[i % 4]),
+                1 => Ev::P(S / 2, cyc[i % 4]),
+                2 => Ev::P(2 * S, cyc[i % 4]),
+                3 => Ev::N(S),
+                _ => Ev::Er(S, 1),
+            })
+            .collect();
+        check_history(3, &h, e, &Opts { meta: false, compose: false })
+    });
+    e4.bounds.push_str(&format!("; plus long runs: every primitive word of length <= 2 repeated to 255..257 and 511..513 events followed by one event of each kind ({} histories)", long_count(5, 2, &LONG_LENS)));
+    vec![e1, e2, e3, e4]
 }
